@@ -114,6 +114,7 @@ func cmdCheck(prop, tier string) int {
 		fmt.Fprintf(os.Stderr, "unknown property %s\n", prop)
 		return 2
 	}
+	variantFilter = prop
 	var obls []*Obligation
 	funcs := map[string]bool{}
 	insts := 0
@@ -380,6 +381,9 @@ func structuralObligations(s *Session, prop string) []*Obligation {
 			note = "package-level variables: " + strings.Join(s.prog.Globals, ", ")
 		}
 		out = append(out, &Obligation{Name: "package/no-globals", Kind: "structure", Props: []string{prop}, Goal: goal, Ctx: NewCtx(), Fn: "package", Note: note})
+	}
+	if prop == "C11" {
+		out = append(out, immutableFieldObligation(s, prop))
 	}
 	// every function of the package is under contract
 	var missing []string
